@@ -622,14 +622,19 @@ func (p *printer) push() {
 }
 
 func (p *printer) heredoc() {
-	// pop
-	list := p.stack[len(p.stack)-1]
-	p.stack = p.stack[:len(p.stack)-1]
-	for _, r := range list {
-		p.w.WriteByte('\n')
-		p.word(r.Heredoc)
-		p.word(r.Delim)
+	// a body may hold a command substitution with here-documents of its
+	// own: the level stays until the bodies are printed
+	for len(p.stack[len(p.stack)-1]) != 0 {
+		list := p.stack[len(p.stack)-1]
+		p.stack[len(p.stack)-1] = nil
+		for _, r := range list {
+			p.w.WriteByte('\n')
+			p.word(r.Heredoc)
+			p.word(r.Delim)
+		}
 	}
+	// pop
+	p.stack = p.stack[:len(p.stack)-1]
 }
 
 func (p *printer) word(w ast.Word) {
